@@ -65,6 +65,47 @@ fn check_deck(rep: &mut Rep, seed: u64, n_seeded: u64) {
             Err(m) => rep.violation("indexing at or past the end of the deck gives blank", "Deck::get", Input::U64s(vec![i as u64]), "0".into(), format!("panicked: {}", m)),
         }
     }
+    // ---- two-call histories: an in-range read right after a past-the-end probe, and the reverse -----------
+    // (Deck::get must be a function of its index alone; every probe index i is followed by the in-range
+    // index that shares its low bits under every power-of-two truncation, and by a sample of other slots)
+    let mut hist = 0u64;
+    let step = (idx.len() / 40_000).max(1);
+    for (n, &i) in idx.iter().enumerate() {
+        let mut followers: Vec<usize> = Vec::new();
+        for bits in [8u32, 16, 32] {
+            let low = if bits >= usize::BITS { i } else { i & ((1usize << bits) - 1) };
+            if low < 52 {
+                followers.push(low);
+            }
+        }
+        followers.push(i % 52);
+        if n % step == 0 {
+            followers.extend(0..52);
+        }
+        for &k in &followers {
+            hist += 2;
+            rep.evaluations += 4;
+            let r = drive::guard(|| {
+                let _ = Deck::get(i);
+                let a = Deck::get(k);
+                let _ = Deck::get(k);
+                let b = Deck::get(i);
+                (a, b)
+            });
+            match r {
+                Ok((a, b)) => {
+                    if a != model::word(k as u8) {
+                        rep.violation("indexing the deck in range gives that entry (whatever was read before)", "Deck::get after Deck::get", Input::U64s(vec![i as u64, k as u64]), format!("{:#010x}", model::word(k as u8)), format!("{:#010x} right after Deck::get({})", a, i));
+                    }
+                    if b != 0 {
+                        rep.violation("indexing at or past the end of the deck gives blank (whatever was read before)", "Deck::get after Deck::get", Input::U64s(vec![k as u64, i as u64]), "0".into(), format!("{:#010x} right after Deck::get({})", b, k));
+                    }
+                }
+                Err(m) => rep.violation("panic", "Deck::get", Input::U64s(vec![i as u64, k as u64]), "normal return".into(), m),
+            }
+        }
+    }
+    rep.add("two_call_deck_histories", hist);
     rep.add("deck_indexes_at_or_past_the_end", idx.len() as u64);
     rep.distinct += idx.len() as u64;
 }
